@@ -668,6 +668,14 @@ def run_shard(ctx):
         f, nt = run_http(case)
         ctx.record(repr(case), nt, labels=['tier=B-http', 'size=%s' % case['size']], case=case, failures=f)
     hyp.drive(ctx, case_http(), one_h, ctx.n(160, 3000), salt=2)
+    # one kept connection carries a refused message and then the next ones (pool of one: no timing involved)
+    for which in ('m0', 'm1'):
+        for stagger in (0.0, 0.02):
+            for bodysplit in (0, 0.01):
+                k += 1
+                if ctx.mine(k):
+                    one_h({'family': 'H', 'n': 3, 'size': 1, 'idle': 1.0, 'keepalive': True, 'delay': 0.0, 'stagger': stagger,
+                           'faults': {which: 'eod4xx'}, 'bodysplit': bodysplit})
 
 
 def replay(case):
